@@ -146,6 +146,11 @@ class World:
                 return p
             self.it.bind_property_statechart(recording_property(), interpreter_klass=klass)
             self.prop = made[0]
+        # a plain closure as listener (a GUI callback, a logger): copy.deepcopy shares functions, the copy keeps calling it
+        self.heard = []
+        self.closure = (lambda m, _h=self.heard: _h.append(m.name))
+        self.it.attach(self.closure)
+        self.last_heard = 0
 
     def parts(self):
         return (self.it, self.peer, self.prop)
@@ -164,6 +169,7 @@ def snapshot(world, method, protocol=None, generations=1):
         else:
             it, peer, prop = copy.deepcopy((it, peer, prop))
     w = World.__new__(World)
+    w.heard, w.closure, w.last_heard = world.heard, world.closure, 0
     w.it, w.peer, w.prop = it, peer, prop
     w.sc = it.statechart
     w.running = world.running
@@ -192,11 +198,13 @@ def apply(world, op, k):
         return None
     it.context['stepno'] = k
     mark = len(it.context['log'])
+    h0 = len(world.heard)
     try:
         step = it.execute_once()
         o = ('step', project(step))
     except Exception as e:      # noqa
         o = ('raise', (type(e).__name__, str(e)[:80]))
+    world.last_heard = len(world.heard) - h0
     o = o + (tuple(it.configuration), freeze({kk: vv for kk, vv in it.context.items() if kk != 'log' and not callable(vv)}),
              it.final, freeze(it.context['log'][mark:]), it.time)
     if world.peer is not None:
@@ -335,6 +343,9 @@ def run_case(acc, rnd, tier, case):
             for op in script:
                 if op[0] == 'step' and k == kb and restored is None:
                     try:
+                        if method == 'pickle' and orig.closure is not None:
+                            orig.it.detach(orig.closure)        # (a closure cannot be pickled: not part of that snapshot)
+                            orig.closure = None
                         gens = 2 if rnd.random() < 0.3 else 1
                         if gens == 2:
                             acc.count('second_generation_snapshots')
@@ -362,6 +373,11 @@ def run_case(acc, rnd, tier, case):
                             acc.violation('C18:restored-differs', '%s at boundary %d: restored interpreter differs from the original '
                                           'at step %d: %s' % (method, kb, k, describe(oo, orr)),
                                           dict(wit, k=kb, method=method, protocol=protocol, step=k))
+                            return
+                        if method == 'deepcopy' and restored.last_heard != orig.last_heard:
+                            acc.violation('C18:restored-differs', 'deepcopy at boundary %d: in step %d the closure attached as listener '
+                                          'heard %d meta-events from the original and %d from the copy' % (kb, k, orig.last_heard, restored.last_heard),
+                                          dict(wit, k=kb, method=method, step=k))
                             return
                         acc.count('steps_compared_after_snapshot')
                         acc.count('old_reads_after_restore', sum(1 for e in orr[5] if e[0] == 'K' and e[3] is not None))
@@ -429,6 +445,9 @@ def running_clock_case(acc, rnd, tier, ch, coder, with_peers, script, nsteps, dg
                     continue
                 if op[0] == 'step' and k == kb and restored is None:
                     try:
+                        if method == 'pickle' and orig.closure is not None:
+                            orig.it.detach(orig.closure)        # (a closure cannot be pickled: not part of that snapshot)
+                            orig.closure = None
                         restored = snapshot(orig, method, protocol)
                     except Exception as e:      # noqa
                         acc.violation('C18:snapshot-raised', '%s at boundary %d (running clock) raised %s: %s' %
